@@ -100,16 +100,16 @@ def scenario(ctx, script_key, stop_api, with_next, max_preempt, later=False):
                 # sleep while the job in front is still sending commands, then keep asking without
                 # sleeping, so that the requests can interleave with the hand-over to the next job
                 n_main = 4 if script_key == 'straight' else 3
-                for attempt in range(200):
+                for attempt in range(300):
                     if len([e for e in net.trace if e[0] == 'power' and e[1] in ('A', 'B')]) >= n_main:
                         break
-                    simsched.ShimTime.sleep(TICK / 5)
-                for attempt in range(60):
+                    simsched.ShimTime.sleep(0.05)
+                for attempt in range(80):
                     marks['result'] = jc.stop_job('next')
                     if marks['result']:
                         break
-                    if attempt % 8 == 7:
-                        simsched.ShimTime.sleep(TICK / 5)
+                    if attempt % 4 == 3:
+                        simsched.ShimTime.sleep(0.01)
                     else:
                         s.yield_point('retry')
             elif stop_api == 'stop_job':
@@ -190,23 +190,32 @@ def worker(args):
     res.sites.add('stop')
     logging.disable(logging.CRITICAL)
     seen = {}
-    run = lambda c: scenario(c, args['script'], args['api'], args['next'], args['preempt'], args['later'])
-    for ctx, out in symx.explore(run, max_paths=args['max_paths'], timeout_ms=1000, stats=res.stats, deadline=time.time() + args['budget_s']):
-        if isinstance(out, symx.Abort):
-            res.out_of_bound += 1
-            continue
-        problems, trace, switches, marks = out
-        res.nontrivial += 1
-        res.reached.add('stop')
-        for pmsg in problems[:1]:
-            key = common_key(pmsg)
-            if key not in seen:
-                seen[key] = (pmsg, trace, switches, marks, [a for a, _ in ctx.trail])
+    # iterative context bounding: all schedules with 0, then <= 1, ... preemptions (most races need very few)
+    t_end = time.time() + args['budget_s']
+    exhaustive = True
+    bound_of = {}
+    for bound in range(0, args['preempt'] + 1):
+        run = lambda c, b=bound: scenario(c, args['script'], args['api'], args['next'], b, args['later'])
+        share = args['max_paths'] if bound == args['preempt'] else max(200, args['max_paths'] // 3)
+        for ctx, out in symx.explore(run, max_paths=share, timeout_ms=1000, stats=res.stats, deadline=t_end):
+            if isinstance(out, symx.Abort):
+                res.out_of_bound += 1
+                continue
+            problems, trace, switches, marks = out
+            res.nontrivial += 1
+            res.reached.add('stop')
+            for pmsg in problems[:1]:
+                key = common_key(pmsg)
+                if key not in seen:
+                    seen[key] = (pmsg, trace, switches, marks, [a for a, _ in ctx.trail])
+                    bound_of[key] = bound
+        exhaustive = exhaustive and symx.explore.last_exhaustive
+    symx.explore.last_exhaustive = exhaustive
     for key, (msg, trace, switches, marks, trail) in seen.items():
         rctx = symx.Ctx(prefix=trail, stats=symx.Stats())
         symx.Ctx.cur = rctx
         try:
-            p2 = scenario(rctx, args['script'], args['api'], args['next'], args['preempt'], args['later'])[0]
+            p2 = scenario(rctx, args['script'], args['api'], args['next'], bound_of.get(key, args['preempt']), args['later'])[0]
         except symx.Abort:
             p2 = []
         finally:
@@ -237,8 +246,8 @@ def run(tier, seed):
                 items.append({'script': script, 'api': api, 'next': nxt, 'later': False, 'preempt': 2 if q else 3,
                               'max_paths': 2500 if q else 150000, 'budget_s': 30 if q else 600})
         if script in ('straight', 'timed'):
-            items.append({'script': script, 'api': 'stop_next', 'next': True, 'later': False, 'preempt': 2 if q else 3,
-                          'max_paths': 2500 if q else 150000, 'budget_s': 30 if q else 600})
+            items.insert(0, {'script': script, 'api': 'stop_next', 'next': True, 'later': False, 'preempt': 2 if q else 3,
+                             'max_paths': 3000 if q else 150000, 'budget_s': 75 if q else 600})
         items.append({'script': script, 'api': 'stop_job', 'next': False, 'later': True, 'preempt': 1 if q else 2,
                       'max_paths': 2500 if q else 150000, 'budget_s': 30 if q else 600})
     results, skipped = report.run_pool(worker, items, budget_s=common.tier_budget(tier, 80, 1000))
